@@ -3,6 +3,7 @@ package verifsim
 import (
 	"bytes"
 	"fmt"
+	"io"
 	"os"
 	"path/filepath"
 	"runtime"
@@ -12,6 +13,7 @@ import (
 	"strings"
 	"sync"
 	"sync/atomic"
+	"syscall"
 	"testing/synctest"
 	"time"
 )
@@ -586,6 +588,13 @@ func CopyTree(src, dst string) error {
 		if !fi.Mode().IsRegular() {
 			return nil
 		}
+		if fi.Size() > 64<<20 {
+			// a sparse file (LiteFS wrote a page far beyond the end): copy the data extents only
+			if err := copySparse(p, target); err != nil {
+				return err
+			}
+			return os.Chtimes(target, fi.ModTime(), fi.ModTime())
+		}
 		b, err := os.ReadFile(p)
 		if err != nil {
 			if os.IsNotExist(err) {
@@ -598,4 +607,43 @@ func CopyTree(src, dst string) error {
 		}
 		return os.Chtimes(target, fi.ModTime(), fi.ModTime())
 	})
+}
+
+// copySparse copies a file extent by extent (SEEK_DATA / SEEK_HOLE).
+func copySparse(src, dst string) error {
+	in, err := os.Open(src)
+	if err != nil {
+		return err
+	}
+	defer in.Close()
+	out, err := os.Create(dst)
+	if err != nil {
+		return err
+	}
+	defer out.Close()
+	fi, err := in.Stat()
+	if err != nil {
+		return err
+	}
+	const seekData, seekHole = 3, 4
+	off := int64(0)
+	for off < fi.Size() {
+		d, err := syscall.Seek(int(in.Fd()), off, seekData)
+		if err != nil { // ENXIO: no more data
+			break
+		}
+		h, err := syscall.Seek(int(in.Fd()), d, seekHole)
+		if err != nil {
+			h = fi.Size()
+		}
+		buf := make([]byte, h-d)
+		if _, err := in.ReadAt(buf, d); err != nil && err != io.EOF {
+			return err
+		}
+		if _, err := out.WriteAt(buf, d); err != nil {
+			return err
+		}
+		off = h
+	}
+	return out.Truncate(fi.Size())
 }
